@@ -741,6 +741,41 @@ func phiLeaves(v ssa.Value) []leaf {
 	return out
 }
 
+// mergeLeaves is phiLeaves over control merges only: a φ at a loop header (its block dominates
+// one of its predecessors) is a leaf — it stands for "the value of this iteration".
+func mergeLeaves(v ssa.Value) []leaf {
+	var out []leaf
+	seen := map[*ssa.Phi]bool{}
+	isHeader := func(p *ssa.Phi) bool {
+		for _, q := range p.Block().Preds {
+			if p.Block().Dominates(q) {
+				return true
+			}
+		}
+		return false
+	}
+	var walk func(p *ssa.Phi)
+	walk = func(p *ssa.Phi) {
+		if seen[p] {
+			return
+		}
+		seen[p] = true
+		for i, e := range p.Edges {
+			if q, ok := e.(*ssa.Phi); ok && !isHeader(q) {
+				walk(q)
+			} else {
+				out = append(out, leaf{e, p.Block().Preds[i], p})
+			}
+		}
+	}
+	if p, ok := v.(*ssa.Phi); ok && !isHeader(p) {
+		walk(p)
+	} else {
+		out = append(out, leaf{V: v})
+	}
+	return out
+}
+
 func ruleTile(c *Ctx) {
 	byFn := map[*ssa.Function][]*Emit{}
 	var order []*ssa.Function
